@@ -200,6 +200,9 @@ func (g *gen) expr(ty string, depth int) *ex {
 			}
 			return call(kit.Pick(r, []string{"strToUpper", "strTrimSpace", "string", "strTrim"}), g.leaf(kit.Pick(r, []string{"string", "string", "float"})))
 		case 4:
+			if r.Bool() {
+				return call("strReplace", g.strArg(d), g.subArg(), g.leaf("string"), kit.Pick(r, []*ex{lit(int64(-1)), lit(int64(0)), lit(int64(1)), lit(int64(2)), lit(int64(100)), g.ref("int")}))
+			}
 			return call("if", g.expr("bool", d), g.expr("string", d), g.expr("string", d))
 		default:
 			return call(kit.Pick(r, []string{"strTrimPrefix", "strTrimSuffix"}), g.strArg(d), g.subArg())
